@@ -5,6 +5,7 @@ import AlgoVerif.Proofs.C08LeftRecTotal
 import AlgoVerif.Proofs.C08LeftFactorTotal
 import AlgoVerif.Proofs.C08Productive
 import AlgoVerif.Proofs.C08Aux
+import AlgoVerif.Proofs.C08Hist
 /-!
 # C08 — CFG transformations preserve the generated language (statements; proofs in `Proofs/C08*.lean`)
 
@@ -44,6 +45,15 @@ everything a pass adds is justified.
   (`C08_leftfactoring`; `Proofs/C08LeftFactor*.lean`: folding a group of alternatives under pairwise different
   fresh names preserves the language, lifted through `lfHead`, `lfPass` and the repeat-until-stable loop) —
   both inclusions, for every valid grammar.
+
+Names that already look generated.  None of the language theorems has a hygiene hypothesis: `A`, `A₁`, `A′`, `aₙ` may all be
+declared.  What they rest on is `C08_fresh_name_not_declared`: whatever the prefix and the suffix list, the name
+`AddNewNonTerminal` returns is not a declared non-terminal (so, in a valid grammar, it occurs in no production).  `Hygienic` is a
+hypothesis of the *totality* theorems only, where it is needed: with `A′ … A⁗` declared `LeftFactor` on `A` really panics.
+
+Objects.  `C08_history_apply` and `C08_history_frame` lift the statements from values to histories over grammar objects
+(`Model/C08Hist.lean`; component `history` of the check): whatever was done before, `apply i T j` gives slot `j` the
+language slot `i` has at the time of the call, and every op leaves all slots but the one it writes untouched.
 
 Totality is `C08_*_total` below.  Two documented panics of `AddNewNonTerminal` remain reachable on valid input
 and are excluded by computable hypotheses: `LeftFactor` needing a fifth primed name for one base name
@@ -326,3 +336,71 @@ theorem C08_equal_grammars_same_language (g h : G) (he : equalG g h = true) (w :
 
 example : equalG ⟨["a", "b"], ["S"], [⟨"S", [.term "a"]⟩, ⟨"S", []⟩], "S"⟩
     ⟨["b", "a"], ["S"], [⟨"S", []⟩, ⟨"S", [.term "a"]⟩], "S"⟩ = true := by decide
+
+/-! ## fresh names, whatever the names in the grammar look like -/
+
+/-- **`AddNewNonTerminal` returns a name that is not declared** — for every grammar (hygienic or not: `A₁`, `A′`, `aₙ` may be
+declared), every prefix and every suffix list: the name is the stripped prefix plus one of the suffixes, it is not a
+declared non-terminal, and it is the only thing added.  This is the fact the soundness of START, TERM, BIN,
+`EliminateEmptyProductions`, `EliminateLeftRecursion` and `LeftFactor` rests on (a counter instead of the search loses it). -/
+theorem C08_fresh_name_not_declared (g g1 : G) (pre n : String) (sufs : List String)
+    (h : addNew g pre sufs = .ok (g1, n)) :
+    n ∉ g.nonterms ∧ g1 = { g with nonterms := g.nonterms ++ [n] } ∧
+    ∃ s ∈ sufs, n = sufs.foldl trimSuffix pre ++ s := by
+  obtain ⟨h1, h2⟩ := addNew_ok h
+  refine ⟨h1, h2, ?_⟩
+  unfold addNew at h
+  split at h
+  · rename_i m hm
+    cases h
+    have := List.mem_of_find?_eq_some hm
+    simp only [List.mem_map] at this
+    obtain ⟨s, hs, rfl⟩ := this
+    exact ⟨s, hs, rfl⟩
+  · cases h
+
+set_option maxRecDepth 40000 in
+/-- non-vacuity, on names that look generated: `A₁` is taken, so `A` gets `A₂`; asked for `A₁` the search strips the suffix and
+answers `A₂` as well; `A₁₂` only loses `₂` (one `TrimSuffix` per suffix, in list order) and gets `A₁₁`; `A₂₁` loses both;
+with all four primed names taken there is no answer (the documented panic) -/
+example : freshName ["S", "A", "A₁"] "A" numerics = some "A₂" ∧ freshName ["S", "A", "A₁"] "A₁" numerics = some "A₂" ∧
+    freshName ["A₁₂"] "A₁₂" numerics = some "A₁₁" ∧ freshName ["A₂₁", "A₁"] "A₂₁" numerics = some "A₂" ∧
+    freshName ["a", "aₙ"] "aₙ" alphas = some "aⁿ" ∧ freshName ["A", "A′", "A″", "A‴", "A⁗"] "A″" primes = none := by
+  decide
+
+/-! ## histories over grammar objects (`Model/C08Hist.lean`) -/
+
+/-- **`apply i T j` preserves the language of the operand as it is at the time of the call**, whatever ops (transformations,
+clones, edits through `Productions.Add/Remove`, `NonTerminals.Add`, `Terminals.Add`) produced the store `s`: if slot `i`
+holds a valid grammar `g` and the op returns, slot `j` then holds `T g` — the pure transformation of the *current* value —
+and `T g` has exactly the language of `g`.  `T` ranges over the seven transformations, the three steps of
+`ChomskyNormalForm` and `Clone`. -/
+theorem C08_history_apply (s s' : Hist.Store) (i j : Nat) (t : String) (g : G)
+    (hi : Hist.get s i = some g) (hv : Valid g) (h : Hist.step s (.apply i t j) = some (.ok s')) :
+    ∃ g', Hist.transform t g = some (.ok g') ∧ Hist.get s' j = some g' ∧ SameLanguage g g' :=
+  Hist.step_apply hi hv h
+
+/-- **Every op writes one slot**: a transformation leaves its operand (and every other object) as it is, an edit of a result
+does not reach the operand it came from, and vice versa. -/
+theorem C08_history_frame (s s' : Hist.Store) (op : Hist.Op) (h : Hist.step s op = some (.ok s')) (x : Nat)
+    (hx : x ≠ op.target) : Hist.get s' x = Hist.get s x :=
+  Hist.step_frame h x hx
+
+set_option maxRecDepth 40000 in
+/-- non-vacuity: the history `nullable-then-change` of the check — `S → a b | a | c` is left-factored into slot 1, the owner
+adds `S → ε` to slot 0, both are made ε-free; slot 1's result has `S → a` (from `S′ → ε`), slot 0's has the new start `S′` -/
+example :
+    let g0 : G := { terms := ["a", "b", "c"], nonterms := ["S"], start := "S",
+                    prods := [⟨"S", [.term "a", .term "b"]⟩, ⟨"S", [.term "a"]⟩, ⟨"S", [.term "c"]⟩] }
+    let run := fun (s : Hist.Store) (ops : List Hist.Op) =>
+      ops.foldl (fun (s : Option Hist.Store) op => s.bind fun s => match Hist.step s op with
+        | some (.ok s') => some s'
+        | _ => none) (some s)
+    Valid g0 ∧
+    ((run [(0, g0)] [.apply 0 "leftfactor" 1, .addProd 0 ⟨"S", []⟩, .apply 1 "emptyfree" 2, .apply 0 "emptyfree" 3]).map
+      fun s => [0, 1, 2, 3].map fun i => (Hist.get s i).map showGrammar)
+    = some [some "start=S T={a,b,c} N={S} P={S→a; S→a b; S→c; S→ε}",
+            some "start=S T={a,b,c} N={S,S′} P={S′→b; S′→ε; S→a S′; S→c}",
+            some "start=S T={a,b,c} N={S,S′} P={S′→b; S→a; S→a S′; S→c}",
+            some "start=S′ T={a,b,c} N={S,S′} P={S′→S; S′→ε; S→a; S→a b; S→c}"] := by
+  decide
